@@ -557,6 +557,10 @@ def C09_comment_fields(ctx, rid, core):
                     for y in H.walk(gg[1]["body"]):
                         if H.kind(y) == "If" and any(H.kind(z) == "MethodCall" and z["name"] == "has_comments" for z in H.walk(y["cond"])) and any(H.kind(z) == "Ret" for z in H.walk(y["then"])):
                             guarded = True
+            # ... or the unwrapping sits in the branch taken when no member has comments (`if has_comments { placeholder } else { .. }`)
+            for gg in g:
+                if gg[0] == "if" and gg[2] is False and any(H.kind(z) == "MethodCall" and z["name"] == "has_comments" for z in H.walk(gg[1])):
+                    guarded = True
             own = "leading" in reads and "trailing" in reads
             # the members themselves may be handed, next to their rendered text, to a helper of the module that emits the comment
             # fields (`do_block_source(statements, rendered_statements, ..)`)
